@@ -179,6 +179,8 @@ func famC13(r *Run) {
 	famManyDistinct(r)
 	famSameNameTypes(r)
 	famHistLong(r)
+	famOneShotStructs(r)
+	famSlicePairs(r)
 }
 
 func parseObs(p *jmespath.Parser, expr string) (a AObs) {
@@ -330,6 +332,8 @@ func famC14(r *Run) {
 	famBackslashRuns(r)
 	famSingleWs(r)
 	famQuotedControl(r)
+	famNonASCIIBare(r)
+	famCaseTwins(r)
 }
 
 func rawOrLit(s string) string {
@@ -424,4 +428,5 @@ func famC15(r *Run) {
 	famFunctionEdges(r)
 	famPipeJSONStrings(r)
 	famLongChains(r)
+	famPipeNonFinite(r)
 }
